@@ -28,6 +28,35 @@ Theorem dynamics_sorted :
 Proof. exact dynamics_sorted_aligned. Qed.
 Print Assumptions dynamics_sorted.
 
+(* (2b) MeanFieldDynamics.add: the object keeps its own time and field lists and one Dynamics object per system, each
+   of which looks up its own insertion index.  After ANY sequence of additions (any order, repeated times; every
+   addition carries n states, which the code asserts) the time list is sorted, the (time, field) pairs are exactly the
+   added ones, there are n system records, and every system record has the SAME time list as the object and holds
+   exactly the added (time, state of that system) pairs: the k-th time, the k-th field and the k-th state of every
+   system were handed over together.  (mfd_refines, used in the proof, says more: the object is n+1 Dynamics
+   objects fed with the projections of the same history.) *)
+Theorem mean_field_record_aligned :
+  forall (T F St : Type) (leb : T -> T -> bool),
+    (forall a b, leb a b = true \/ leb b a = true) ->
+    (forall a b c, leb a b = true -> leb b c = true -> leb a c = true) ->
+    forall (n : nat) (adds : list (T * F * list St)),
+      Forall (fun a => length (snd a) = n) adds -> adds <> [] ->
+      let m := mfd_of T F St leb adds in
+      let times := fst (fst m) in
+      sorted T leb times /\
+      Permutation (combine times (snd (fst m))) (map fst adds) /\
+      length (snd m) = n /\
+      forall i d, (i < n)%nat ->
+        fst (nth i (snd m) ([], [])) = times /\
+        Permutation (combine times (snd (nth i (snd m) ([], [])))) (map (tsi T F St i d) adds).
+Proof. exact mfd_aligned. Qed.
+Print Assumptions mean_field_record_aligned.
+(* the premises are met and the conclusion says something: two systems, additions out of order with a repeated time *)
+Example mean_field_record_example :
+  mfd_of Z Z Z Z.leb [((3, 10), [100; 200]); ((1, 11), [101; 201]); ((3, 12), [102; 202]); ((2, 13), [103; 203])]%Z
+  = (([1; 2; 3; 3], [11; 13; 10; 12]), [([1; 2; 3; 3], [101; 103; 100; 102]); ([1; 2; 3; 3], [201; 203; 200; 202])])%Z.
+Proof. vm_compute. reflexivity. Qed.
+
 (* (3) the step count on the decimal lattice, in binary64 (primitive floats and 63-bit
    integers, evaluated by vm_compute; no Z arithmetic inside the loops).
    dt = a/100 (a = 1..100), start = +-s/10, m = 0..1000 steps.  Both numbers are the
